@@ -15,6 +15,7 @@ import hashlib
 import itertools
 import json
 import random
+import sys
 import re
 from decimal import ROUND_DOWN, ROUND_HALF_UP, Decimal, InvalidOperation, getcontext
 
@@ -146,6 +147,36 @@ SETUP = [
 ]
 
 
+def _fresh_instance(statements):
+    """a NEW FakeSnow instance (its own DuckDB) whose only session connects without naming a database"""
+    import fakesnow.instance
+    cur = fakesnow.instance.FakeSnow().connect().cursor()
+    res = []
+    for s_ in statements:
+        try:
+            cur.execute(s_)
+            res.append("|".join(",".join(obs_cell(v) for v in row) for row in cur.fetchall()))
+        except Exception as e:
+            res.append(obs_exc(e))
+    return res
+
+
+HOST_TZS = ["America/New_York", "Asia/Kolkata", "Pacific/Auckland"]
+
+
+def set_host_timezone(seed: int) -> str:
+    """the host's time zone must not matter: the whole check (parent and forked workers) runs under a non-UTC process time
+    zone, set before DuckDB is loaded"""
+    import os
+    import time as _time
+    tz = HOST_TZS[seed % len(HOST_TZS)]
+    if "duckdb" in sys.modules:
+        raise common.Infra("DuckDB was loaded before the process time zone could be set")
+    os.environ["TZ"] = tz
+    _time.tzset()
+    return tz
+
+
 def _worker(shard):
     import fakesnow
     import snowflake.connector
@@ -180,8 +211,12 @@ def _worker(shard):
                     out.append({"select": obs_cell(rows[0][0])})
                 except Exception as e:
                     out.append({"select": obs_exc(e)})
-            elif kind == "stmts":
+            elif kind in ("stmts", "stmts_nodb"):
                 # a list of statements on a FRESH connection; the observation is the list of single-cell results
+                # (stmts_nodb: a FRESH instance whose only session connects without naming a database)
+                if kind == "stmts_nodb":
+                    out.append({"stmts": _fresh_instance(payload)})
+                    continue
                 c2 = snowflake.connector.connect(database="db1", schema="s1").cursor()
                 res = []
                 for s in payload:
@@ -469,6 +504,16 @@ def build(chk):
     cases.append({"tag": "to_timestamp:float", "task": ("expr", ("to_timestamp(1700000000.5)", ["select"])), "line": None, "x": "to_timestamp(1700000000.5)",
                   "judge": ("fixed", "t2023-11-14 22:13:20.500000", "t2023-11-14 22:13:20.500000+00:00", "C10/to-timestamp-float-tz-aware")})
 
+    # ---- the session time zone is UTC however the session came to its database ---------------------------------------------
+    tzq = [("select to_timestamp(0)", "t1970-01-01 00:00:00"), ("select to_timestamp(1709251199)", "t2024-02-29 23:59:59"), ("select to_date(to_timestamp(0))", "d1970-01-01"),
+           ("select dateadd(hour, 1, to_timestamp(0))", "t1970-01-01 01:00:00"), ("select datediff(day, '1970-01-01', to_timestamp(3600))", "I0"),
+           ("select to_timestamp_ntz(1700000000123, 3)", "t2023-11-14 22:13:20.123000"), ("select to_timestamp('2023-01-05 10:00:00')", "t2023-01-05 10:00:00")]
+    for pre in (["create database tzdb", "use database tzdb", "create schema s", "use schema s"], ["create database tzdb2", "use database tzdb2"], []):
+        cases.append({"tag": "timezone:connect-without-database", "x": "connect(); " + "; ".join(pre + [q for q, _ in tzq]),
+                      "task": ("stmts_nodb", pre + [q for q, _ in tzq]), "line": None, "judge": ("stmts_exact", [None] * len(pre) + [w for _, w in tzq])})
+    cases.append({"tag": "timezone:second-connection", "x": "second connection: " + "; ".join(q for q, _ in tzq), "task": ("stmts", [q for q, _ in tzq]), "line": None,
+                  "judge": ("stmts_exact", [w for _, w in tzq])})
+
     # ---- DATEDIFF (oracle only, no Lean model: DuckDB's date_diff + the literal cast) -------------
     pairs = [("2022-12-31", "2023-01-01"), ("2023-01-31", "2023-02-01"), ("2023-01-01", "2023-01-01"), ("2024-02-29", "2023-02-28"), ("1969-12-31", "1970-01-01"),
              ("2023-03-31", "2023-04-01"), ("2023-01-01", "2024-01-01")]
@@ -552,10 +597,17 @@ def build(chk):
     cases.append({"tag": "sha2:null", "task": ("expr", ("sha2(null)", ["select"])), "line": None, "x": "sha2(null)", "judge": ("fixed", "N", None, None)})
 
     # ---- TRIM ----------------------------------------------------------------------------------------
-    for s in ["  a  ", "xxaxx", "a", "", "  ", " x a x ", "\ta\t"]:
-        for chars in (None, "x", " x", "a"):
-            x = f"trim({sql_str(s) if s == 'xxaxx' else quote(rnd, s)}" + (f", {sql_str(chars) if s == 'xxaxx' else quote(rnd, chars)})" if chars is not None else ")")
-            cases.append({"tag": "trim", "task": ("expr", (x, ctx_pick(rnd, quick, k=1))), "line": f"rewrite\ttrim\t{enc_str(s)}\t{enc_opt(chars)}", "x": x, "judge": ("model_text",)})
+    for s_ in ["  a  ", "xxaxx", "a", "", "  ", " x a x ", "\ta\t", "xyxaxy"]:
+        for chars in (None, "x", " x", "a", "xy"):
+            for cast in (None, "::varchar", "::string", "::text", "cast"):
+                if cast and quick and rnd.random() < 0.5 and not (s_ == "xxaxx" and chars == "x"):
+                    continue
+                fixed = s_ == "xxaxx" and chars == "x"
+                lit = sql_str(s_) if fixed else quote(rnd, s_)
+                operand = lit if cast is None else f"cast({lit} as varchar)" if cast == "cast" else lit + cast
+                x = f"trim({operand}" + (f", {sql_str(chars) if fixed else quote(rnd, chars)})" if chars is not None else ")")
+                cases.append({"tag": "trim" if cast is None else "trim:text-cast", "task": ("expr", (x, ctx_pick(rnd, quick, k=1))),
+                              "line": f"rewrite\ttrim\t{enc_str(s_)}\t{enc_opt(chars)}\t{'0' if cast is None else '1'}", "x": x, "judge": ("model_text",)})
 
     # ---- REGEXP_REPLACE, TO_DATE, TO_TIMESTAMP (oracle only) ---------------------------------------------
     rr_subjects = ["aaa", "a1b2c3", "abcabc", "AbAb", "", "a.a.a", "it's 1 2"]
@@ -940,6 +992,7 @@ def judge(chk, case, real, rep):
 
 
 def run(chk) -> None:
+    chk.extra["host_timezone"] = set_host_timezone(chk.seed)
     cases = build(chk)
     # the committed witnesses (one per known finding) are judged first
     by_x = {c["x"]: c for c in cases}
@@ -979,6 +1032,8 @@ def run(chk) -> None:
 
 
 def replay(chk, case) -> None:
+    if "duckdb" not in sys.modules:
+        set_host_timezone(chk.seed)
     cases = [c for c in build(chk) if c["x"] == case["x"]]
     if not cases:
         raise common.Infra(f"case {case['x']} is not generated for this seed/tier; re-run with the seed recorded in the replay")
